@@ -142,7 +142,10 @@ func readItem(c pdf.Cursor, visited map[pdf.Reference]bool, ref pdf.Reference, d
 	}
 	item.Title = string(title)
 
-	count, _ := c.Integer(dict["Count"])
+	count, err := c.Integer(dict["Count"])
+	if pdf.IsReadError(err) {
+		return nil, nil, err
+	}
 	item.Open = count > 0
 
 	if dict["Dest"] != nil {
@@ -159,16 +162,28 @@ func readItem(c pdf.Cursor, visited map[pdf.Reference]bool, ref pdf.Reference, d
 		item.Action = a
 	}
 
-	if cArr, _ := c.Array(dict["C"]); len(cArr) == 3 {
+	cArr, err := c.Array(dict["C"])
+	if pdf.IsReadError(err) {
+		return nil, nil, err
+	}
+	if len(cArr) == 3 {
 		// components out of range are clamped, so that anything we read can
 		// be written back out through the strict writer
-		cr, _ := c.Number(cArr[0])
-		cg, _ := c.Number(cArr[1])
-		cb, _ := c.Number(cArr[2])
-		item.Color = color.DeviceRGB{clamp01(cr), clamp01(cg), clamp01(cb)}
+		var rgb [3]float64
+		for i := range rgb {
+			rgb[i], err = c.Number(cArr[i])
+			if pdf.IsReadError(err) {
+				return nil, nil, err
+			}
+		}
+		item.Color = color.DeviceRGB{clamp01(rgb[0]), clamp01(rgb[1]), clamp01(rgb[2])}
 	}
 
-	if f, _ := c.Integer(dict["F"]); f != 0 {
+	f, err := c.Integer(dict["F"])
+	if pdf.IsReadError(err) {
+		return nil, nil, err
+	}
+	if f != 0 {
 		item.Italic = f&1 != 0
 		item.Bold = f&2 != 0
 	}
